@@ -131,6 +131,7 @@ fn main() {
     let mut out = Out::new(a.get("out").map(|s| s.as_str()).unwrap_or("/verif/.work/abi"));
     if let Some(f) = a.get("cases") {
         for line in std::fs::read_to_string(f).unwrap().lines() {
+            fbrh::util::crumb(line);
             let o = exec(line);
             out.case(line, &o);
         }
@@ -181,6 +182,7 @@ fn main() {
     for line in lines {
         let op = line.split(' ').next().unwrap().to_string();
         out.stat(&op);
+        fbrh::util::crumb(&line);
         let o = exec(&line);
         // non-trivial + distinct: the output line itself (distinct layouts / values / conversions)
         out.class(&o);
